@@ -299,7 +299,17 @@ fn fam_marker(ctx: &CaseCtx, cov: &mut Cov) -> CaseOut {
             return out;
         }
     };
-    let declared = hist.len() + rng.range(1, 50) as usize;
+    // the declared size exceeds what the payload produces by a small amount, by a multiple of
+    // 256 / 65536 (the shortfall then lives entirely in the high size bits of the control
+    // byte) or up to the 2 MiB the field can express
+    let delta = match rng.below(5) {
+        0 | 1 => rng.range(1, 50) as usize,
+        2 => (rng.range(1, 31) as usize) << 16,
+        3 => (rng.range(1, 255) as usize) << 8,
+        _ => *rng.pick(&[65535usize, 65537, (1 << 21) - 41, 1 << 20]),
+    };
+    let declared = (hist.len() + delta).min(1 << 21);
+    cov.inc("marker_in_chunk_shortfall", match delta { d if d % 65536 == 0 => 0, d if d % 256 == 0 => 1, d if d < 50 => 2, _ => 3 });
     let mut b = vec![0xE0 | (((declared - 1) >> 16) as u8)];
     b.extend_from_slice(&(((declared - 1) & 0xFFFF) as u16).to_be_bytes());
     b.extend_from_slice(&((payload.len() - 1) as u16).to_be_bytes());
@@ -474,6 +484,7 @@ fn fam_raw_only(ctx: &CaseCtx, cov: &mut Cov) -> CaseOut {
 
 fn label(group: &str, i: u32) -> String {
     match group {
+        "marker_in_chunk_shortfall" => ["multiple of 65536", "multiple of 256", "1..49", "other large"][i as usize].to_string(),
         "rule" => RULES[i as usize].to_string(),
         "api" => API[i as usize].to_string(),
         _ => std_label(group, i),
